@@ -723,10 +723,7 @@ func (h *H) actWrite(p, k, v, sh, pad int) {
 	// size of the proposal = DataWrapper.Marshal: type(4) identity(1+len) proposeId(8) data
 	size := 4 + 1 + len(fmt.Sprintf("%s_%d", dbName, p)) + 8 + len(tail)
 	// the waiter is registered before the proposal is handed to raft
-	if !waitFor(2*time.Second, func() bool { return x.rn.VerifPending() > before || len(w.done) > 0 }) {
-		h.fail("writer on node %d did not register", p)
-		return
-	}
+	waitFor(2*time.Second, func() bool { return x.rn.VerifPending() > before || len(w.done) > 0 })
 	h.emit(fmt.Sprintf("propose %d %d %d %d %d", p, k, v, sh, size))
 	h.infl = append(h.infl, infl{kind: "write", uid: v, prop: p})
 	h.c.Count("write")
@@ -1048,7 +1045,7 @@ func Run(c *hx.Ctx) error {
 	raft.SetLogger(&raft.DefaultLogger{Logger: log.New(io.Discard, "", 0)})
 	config.SetElectionTick(4)
 	config.SetHeartbeatTick(1)
-	config.SetWaitCommitTimeout(4 * time.Second)
+	config.SetWaitCommitTimeout(10 * time.Minute) // no wall-clock outcome: a writer whose proposal is lost ends with the kill of its node
 	config.GetStoreConfig().ClearEntryLogTolerateTime = toml.Duration(6 * time.Hour)
 	config.GetStoreConfig().ClearEntryLogTolerateSize = 1 // deleteEntryLogBySize: the limit is always exceeded when the harness calls it
 	root := os.Getenv("VERIF_SCRATCH")
@@ -1117,16 +1114,19 @@ func (h *H) shutdown() {
 	}
 }
 
-// waitWriters: every writer still waiting gets its answer (or its timeout) before the scenario ends
+// waitWriters: a writer still waiting after everything was released and has settled waits for a
+// proposal that was lost (it would wait for the commit time-out): its node is killed and restarted.
 func (h *H) waitWriters() {
+	h.settle()
+	h.explain()
 	for _, w := range h.wr {
-		if w.res == "" {
-			select {
-			case err := <-w.done:
-				w.res = classify(err)
-			case <-time.After(6 * time.Second):
-				h.fail("writer %d never returned", w.uid)
+		if w.res == "" && h.err == nil {
+			n := w.node
+			h.actKill(n)
+			if h.leader < 0 {
+				h.pickLeader()
 			}
+			h.actRestart(n)
 		}
 	}
 }
